@@ -40,6 +40,8 @@ CLAUSES = {
            "header was written, is left pending (only write back-pressure may pause the chunks of a message)",
     "132": "C13: a streamed chunk send that was parked on write back-pressure is still pending although back-pressure "
            "has been lifted and the send was polled again",
+    "144": "C14: a PUBREL was written by an operation that neither releases nor drops a receipt (it belongs to "
+           "another exchange)",
     "141": "C14: releasing / dropping a QoS 2 receipt did not write exactly one PUBREL with its own id",
     "142": "C14: releasing / dropping a receipt changed the state of another task",
     "143": "C14: a released exchange did not complete on its own PUBCOMP / completed without it",
@@ -175,6 +177,10 @@ def track(ver, case, obs, want):
                 if 14 in want and not peer_early_comp and code in (6, 7):
                     if id_of.get(t) != pid:
                         return "0,141,%d" % i
+                if 14 in want and code not in (6, 7):
+                    # a PUBREL leaves only when a receipt is released or dropped: no other operation (a refused or
+                    # cancelled send, an acknowledgement, a close) writes one
+                    return "0,144,%d" % i
         if (14 in want or 6 in want) and not peer_early_comp and code in (6, 7) and t in id_of \
                 and phase.get(t) in ("receipt_ready", "receipt") and prev_open and not closed_expected and not streaming and prev_tasks.get(t) == 2:
             n_rel = sum(1 for (tag, pid) in wire if tag == PUBREL)
